@@ -76,12 +76,15 @@ def gen_fraction_term(rng, with_num=True, with_den=True):
     io.sort(key=lambda s_: s_.name)
     iv.sort(key=lambda s_: s_.name)
     den = 1
+    brackets = []
     for _ in range(rng.randint(1, 3) if with_den else 0):
         n = rng.choice([1, 1, 2, 2, 3])
         n = min(n, len(io), len(iv))
         if n == 0:
             continue
-        den *= bracket(rng, io, iv, n) ** rng.choice([1, 1, 1, 2])
+        br = bracket(rng, io, iv, n)
+        brackets.append(br)
+        den *= br ** rng.choice([1, 1, 1, 2])
     num = 1
     if with_num and io and iv and rng.random() < 0.8:
         n = min(rng.choice([1, 2, 3]), len(io), len(iv))
@@ -91,6 +94,15 @@ def gen_fraction_term(rng, with_num=True, with_den=True):
                               rng.choice([1, 1, 2]))
         num = s * (Add(*[cf() * e_(x) for x in os_])
                    - Add(*[cf() * e_(x) for x in vs_]))
+        if brackets and rng.random() < 0.4:
+            # numerator = weighted sum of the denominator brackets (weights
+            # other than 1: the cancellation rescales the prefactor)
+            sg_ = rng.choice([1, -1])
+            num = Add(*[sg_ * rng.choice([1, 2, 3, 2, Rational(1, 2)]) *
+                        (b if b.coeff(e_(io[0])) >= 0 or True else b)
+                        for b in brackets])
+            if rng.random() < 0.3:
+                num += cf() * e_(rng.choice(io))
     term = G.random_coef(rng) * num * rem / den
     return term, tg, den != 1
 
@@ -134,6 +146,17 @@ def run(ctx):
         for op, fn in ops:
             try:
                 res = fn(Expr(term, target_idx=tg).terms[0])
+            except RuntimeError as ex:
+                if "Ambiguous signs" in str(ex):
+                    # explicit refusal: occupied (virtual) orbital energies
+                    # with mixed signs in the numerator
+                    ctx.dist[f"{op}:refused-ambiguous-signs"] = ctx.dist.get(
+                        f"{op}:refused-ambiguous-signs", 0) + 1
+                    continue
+                ctx.violation(f"C13:{op}:exception:{str(term)[:120]}",
+                              f"{op} raised {ex!r}", {"term": str(term)},
+                              False)
+                continue
             except Exception as ex:
                 ctx.violation(f"C13:{op}:exception:{str(term)[:120]}",
                               f"{op} raised {ex!r}", {"term": str(term)},
@@ -254,6 +277,10 @@ def run(ctx):
         p_, q_ = (rng.sample(pools[sp], 2) if rng.random() < 0.85
                   else [rng.choice(pools[sp])] * 2)
         f = AntiSymmetricTensor("f", (p_,), (q_,), rng.choice([0, 1]))
+        if rng.random() < 0.3:
+            # powers of a Fock element (also written as f_pq f_qp)
+            f = f ** rng.choice([2, 2, 3]) if rng.random() < 0.6 else \
+                f * AntiSymmetricTensor("f", (q_,), (p_,), 1)
         if rng.random() < 0.4:
             # further Fock elements, chained with the first one (sharing an
             # index) or independent
